@@ -108,7 +108,7 @@ def cases(c):
                 for s in seqs:
                     out.append({'cls': cls, 'start': start, 'ops': [list(ops[i]) for i in s], 'exhaustive': n,
                                 'directed': n == 1})
-        for i in range(25 if c.tier == 'quick' else 2500):
+        for i in range(25 if c.tier == 'quick' else 10000):
             L = int(rng.integers(4, 13))
             seq = [list(ops[int(rng.integers(0, len(ops)))]) for _ in range(L)]
             out.append({'cls': cls, 'start': gen.pick(rng, ['A', 'C']), 'ops': seq, 'i': i})
